@@ -1,7 +1,83 @@
 package appctl
 
+import (
+	"fmt"
+	"net/url"
+	"strings"
+)
+
 // H20.3 share links: malformed input is an error, never a panic.
 func vH_C20_url_to_config_nopanic() {
 	s := vNondetString("url", 10)
+	_, _ = URLToClientConfig(s)
+}
+
+func vH_C20_url_to_config_nopanic7() {
+	s := vNondetString("url", 7)
+	_, _ = URLToClientConfig(s)
+}
+
+// length case split: every string of exactly n bytes for n = 0..7 (every string
+// shorter than the 8-byte "mieru://" prefix), bytes symbolic
+func vH_C20_url_to_config_lens() {
+	for n := 0; n <= 7; n++ {
+		b := vNondetBytes("url", n)
+		_, _ = URLToClientConfig(string(b))
+	}
+}
+
+// Contract stub of net/url.Parse, written from the package documentation and
+// RFC 3986 as implemented by net/url: only what URLToClientConfig consumes
+// (Scheme, Opaque, error) is modelled precisely; authority, path and query
+// details are left arbitrary.  Used by the quick harness; the thorough harness
+// runs the real parser symbolically.
+func vStubURLParse(rawURL string) (*url.URL, error) {
+	for i := 0; i < len(rawURL); i++ {
+		if rawURL[i] < 0x20 || rawURL[i] == 0x7f {
+			return nil, fmt.Errorf("net/url: invalid control character in URL")
+		}
+	}
+	u := rawURL
+	if i := strings.IndexByte(u, '#'); i >= 0 {
+		u = u[:i]
+	}
+	out := &url.URL{}
+	// scheme = ALPHA *( ALPHA / DIGIT / "+" / "-" / "." ) ":"
+	rest := u
+	for i := 0; i < len(u); i++ {
+		c := u[i]
+		if (c >= 'a' && c <= 'z') || (c >= 'A' && c <= 'Z') {
+			continue
+		}
+		if (c >= '0' && c <= '9') || c == '+' || c == '-' || c == '.' {
+			if i == 0 {
+				break
+			}
+			continue
+		}
+		if c == ':' {
+			if i == 0 {
+				return nil, fmt.Errorf("missing protocol scheme")
+			}
+			out.Scheme = strings.ToLower(u[:i])
+			rest = u[i+1:]
+		}
+		break
+	}
+	if i := strings.IndexByte(rest, '?'); i >= 0 {
+		rest = rest[:i]
+	}
+	if !strings.HasPrefix(rest, "/") && out.Scheme != "" {
+		out.Opaque = rest
+		return out, nil
+	}
+	if vNondetBool("url.authority.error") {
+		return nil, fmt.Errorf("net/url: invalid authority or path")
+	}
+	return out, nil
+}
+
+func vH_C20_url_to_config_contract() {
+	s := vNondetString("url", 12)
 	_, _ = URLToClientConfig(s)
 }
